@@ -238,4 +238,76 @@ theorem effChunk_eq_chunkSize {nRows nProc chunkSize : Nat} (hp : 0 < nProc)
   have : chunkSize ≤ (nRows + nProc - 1) / nProc := (Nat.le_div_iff_mul_le hp).mpr h
   omega
 
+/-! ### the enumerated completion orders are permutations -/
+
+theorem insertEverywhere_perm {α} (x : α) (l : List α) :
+    ∀ o ∈ insertEverywhere x l, o.Perm (x :: l) := by
+  induction l with
+  | nil =>
+    intro o ho
+    simp only [insertEverywhere, List.mem_singleton] at ho
+    subst ho
+    exact List.Perm.refl _
+  | cons y r ih =>
+    intro o ho
+    simp only [insertEverywhere, List.mem_cons, List.mem_map] at ho
+    rcases ho with rfl | ⟨o', ho', rfl⟩
+    · exact List.Perm.refl _
+    · exact (List.Perm.cons y (ih o' ho')).trans (List.Perm.swap x y r)
+
+theorem permutations_perm {α} (l : List α) : ∀ o ∈ permutations l, o.Perm l := by
+  induction l with
+  | nil =>
+    intro o ho
+    simp only [permutations, List.mem_singleton] at ho
+    subst ho
+    exact List.Perm.refl _
+  | cons x r ih =>
+    intro o ho
+    simp only [permutations, List.mem_flatMap] at ho
+    obtain ⟨o', ho', hins⟩ := ho
+    exact (insertEverywhere_perm x o' o hins).trans (List.Perm.cons x (ih o' ho'))
+
+theorem completionOrders_perm (nWorkers nProc : Nat) :
+    ∀ o ∈ completionOrders nWorkers nProc, o.Perm (List.range nWorkers) := by
+  intro o ho
+  simp only [completionOrders, List.mem_filter] at ho
+  exact permutations_perm _ o ho.1
+
+theorem filterMap_congr' {α β} {f g : α → Option β} {l : List α} (h : ∀ a ∈ l, f a = g a) :
+    l.filterMap f = l.filterMap g := by
+  induction l with
+  | nil => rfl
+  | cons a r ih =>
+    have ha := h a (by simp)
+    have hr := ih (fun b hb => h b (List.mem_cons_of_mem _ hb))
+    simp only [List.filterMap_cons, ha, hr]
+
+theorem filterMap_range_getElem? {ρ} (results : List ρ) :
+    (List.range results.length).filterMap (fun w => results[w]?) = results := by
+  have key : ∀ r : List ρ,
+      (List.range r.reverse.length).filterMap (fun w => r.reverse[w]?) = r.reverse := by
+    intro r
+    induction r with
+    | nil => simp
+    | cons x r ih =>
+      rw [List.reverse_cons, List.length_append, List.length_singleton, List.range_succ,
+        List.filterMap_append]
+      have h1 : (List.range r.reverse.length).filterMap (fun w => (r.reverse ++ [x])[w]?)
+          = (List.range r.reverse.length).filterMap (fun w => r.reverse[w]?) := by
+        apply filterMap_congr'
+        intro w hw
+        rw [List.getElem?_append_left (List.mem_range.mp hw)]
+      rw [h1, ih]
+      simp
+  have := key results.reverse
+  simpa using this
+
+theorem gather_perm {ρ} (results : List ρ) (completion : List Nat)
+    (h : completion.Perm (List.range results.length)) : (gather results completion).Perm results := by
+  unfold gather
+  have h1 := h.filterMap (fun w => results[w]?)
+  rw [filterMap_range_getElem?] at h1
+  exact h1
+
 end CTM.Procs
